@@ -125,6 +125,11 @@ def real_sweep(ctx, n_cases, n_special):
             case = {"sources": [a, b],
                     "sensors": [{"pos": [[0.0, 0.0, 0.0]], "rot": [[0.0, 0.0, 0.0]], "pixel": lr.inside_point(ctx.rng, b), "left": False}]}
             check_real(ctx, case, "last-group-of-one")
+    # large field ratios inside one vectorised group, strong source before and after the weak ones
+    for i in range(max(8, n_cases // 4)):
+        cls = ("Polyline", "Polyline", "TriangularMesh")[i % 3]
+        check_real(ctx, lr.g_dynamic_case(ctx.rng, cls, ragged=(i // 3) % 4 != 3, strong_first=(i // 12) % 2 == 0 if i >= 12 else i % 2 == 0),
+                   "dynamic-range")
     # equal bodies with different excitations share a group: each row must keep its own excitation
     for cls in ("TriangularMesh", "Tetrahedron", "Cuboid", "CylinderSegment"):
         for _ in range(max(2, n_cases // 20)):
